@@ -146,6 +146,28 @@ def make_files(T, n_atoms, formats, d, tag="", cell=True):
                 open(p, "wb").write(data)
             elif fmt == "dcdfix.dcd":
                 write_fixed_atom_dcd(p, T, n_atoms)
+            elif fmt == "dcd4.dcd":
+                # a CHARMM DCD whose frames carry a 4th-dimension record after x, y, z (mdtraj cannot write one): an ordinary
+                # cell-less DCD is written through DCDTrajectoryFile and the flag and the extra records are put in by hand
+                import struct
+                from mdtraj.formats import DCDTrajectoryFile
+                plain = p + ".plain"
+                with DCDTrajectoryFile(plain, "w") as fh:
+                    fh.write(make_traj(T, n_atoms, False).xyz * 10.0)
+                raw = open(plain, "rb").read()
+                os.remove(plain)
+                block = 4 + 4 * n_atoms + 4
+                body = T * 3 * block
+                header, frames_ = bytearray(raw[: len(raw) - body]), raw[len(raw) - body:]
+                if not (header[4:8] == b"CORD" and struct.unpack("<2i", header[48:56]) == (0, 0)):
+                    raise RuntimeError("unexpected DCD header layout")
+                header[52:56] = struct.pack("<i", 1)
+                w = struct.pack("<i", 4 * n_atoms) + np.full(n_atoms, 0.5, "<f4").tobytes() + struct.pack("<i", 4 * n_atoms)
+                with open(p, "wb") as out:
+                    out.write(bytes(header))
+                    for i in range(T):
+                        out.write(frames_[i * 3 * block:(i + 1) * 3 * block])
+                        out.write(w)
             elif fmt in TRR_BLOCKS:
                 box = np.array([np.eye(3) * ((i + 2.0) if cell else 0.0) for i in range(T)], dtype=np.float32)
                 write_trr_blocks(p, t.xyz, box, *TRR_BLOCKS[fmt])
@@ -210,7 +232,7 @@ def traj_obs(t):
             "top_atoms": [a.residue.resSeq - 1 for a in t.topology.atoms] if t.topology is not None else None}
 
 
-UNIT = {"trrv.trr": 1.0, "trrf.trr": 1.0, "trrvf.trr": 1.0, "xyznonl.xyz": 10.0, "dcdfix.dcd": 10.0, "dcd0.dcd": 10.0, "h5": 1.0, "xtc": 1.0, "trr": 1.0, "dcd": 10.0, "nc": 10.0, "mdcrd": 10.0, "xyz": 10.0,
+UNIT = {"dcd4.dcd": 10.0, "trrv.trr": 1.0, "trrf.trr": 1.0, "trrvf.trr": 1.0, "xyznonl.xyz": 10.0, "dcdfix.dcd": 10.0, "dcd0.dcd": 10.0, "h5": 1.0, "xtc": 1.0, "trr": 1.0, "dcd": 10.0, "nc": 10.0, "mdcrd": 10.0, "xyz": 10.0,
         "lammpstrj": 10.0, "dtr": 10.0, "arc": 10.0, "gro": 1.0, "lh5": 1.0, "netcdf": 10.0}
 
 
